@@ -140,7 +140,7 @@ func c11Cases(env *fw.Env) []c11Case {
 		}
 	}
 	for _, a := range []bool{true, false} {
-		for _, st := range []string{"stall-t6", "stall-t7", "stall-t8", "stall-write-timeout", "stall-control-write", "stall-linktest", "stall-linktest+local-sends"} {
+		for _, st := range []string{"stall-t6", "stall-t7", "stall-t8", "stall-write-timeout", "stall-write-timeout+short-ctx", "stall-control-write", "stall-linktest", "stall-linktest+local-sends"} {
 			if (st == "stall-t6" && !a) || (st == "stall-t7" && a) {
 				continue
 			}
@@ -192,7 +192,7 @@ func c11Cases(env *fw.Env) []c11Case {
 		// delays injected around teardown / publish / dispatch (the recovery machinery's own suspension points)
 		base := len(cs)
 		agnostic := map[string]bool{"cut-reading-lib-linktest-req": true, "cut-reading-lib-linktest-rsp": true, "cut-reading-lib-data-primary": true,
-			"cut-writing-peer-reply": true, "cut-writing-peer-primary": true, "stall-t8": true, "stall-write-timeout": true, "stall-control-write": true, "stall-linktest": true, "stall-linktest+local-sends": true}
+			"cut-writing-peer-reply": true, "cut-writing-peer-primary": true, "stall-t8": true, "stall-write-timeout": true, "stall-write-timeout+short-ctx": true, "stall-control-write": true, "stall-linktest": true, "stall-linktest+local-sends": true}
 		for _, c := range cs[:base] {
 			if agnostic[c.Kind] {
 				c.Active = !c.Active
@@ -304,7 +304,7 @@ func c11One(env *fw.Env, cs c11Case) {
 		o.T7 = 150 * time.Millisecond
 	case "stall-t8":
 		o.T8 = 150 * time.Millisecond
-	case "stall-write-timeout":
+	case "stall-write-timeout", "stall-write-timeout+short-ctx":
 		o.WriteTimeout = 200 * time.Millisecond
 	case "stall-control-write":
 		// the only thing the library writes is a control frame (Linktest.req); the write timeout covers its stall
@@ -385,7 +385,7 @@ func c11One(env *fw.Env, cs c11Case) {
 	}
 	defer pc.Close()
 	needSelected := map[string]bool{"cut-reading-lib-data-primary": true, "cut-writing-peer-reply": true, "cut-writing-peer-primary": true, "cut-reading-lib-linktest-req": true,
-		"cut-reading-lib-linktest-rsp": true, "stall-t8": true, "stall-write-timeout": true, "stall-control-write": true, "stall-linktest": true, "stall-linktest+local-sends": true, "refused-dials": true, "failed-listens": true}
+		"cut-reading-lib-linktest-rsp": true, "stall-t8": true, "stall-write-timeout": true, "stall-write-timeout+short-ctx": true, "stall-control-write": true, "stall-linktest": true, "stall-linktest+local-sends": true, "refused-dials": true, "failed-listens": true}
 	if needSelected[cs.Kind] {
 		if err := rawSelect(rg, pc); err != nil {
 			env.Note("case %d (%s): setup select: %v", cs.Index, cs.Kind, err)
@@ -500,6 +500,27 @@ func c11One(env *fw.Env, cs c11Case) {
 		}()
 		if !waitFor(30*time.Second, func() bool { return rg.Conn.State() != hsms.SelectedState }) {
 			fail("stall-not-dropped-write-timeout", "128 MiB of writes to a peer that never reads (write timeout 200 ms) did not drop the link within 30 s")
+			return
+		}
+		env.Event("stall_cases", 1)
+	case "stall-write-timeout+short-ctx":
+		// as above, but every call carries a deadline SHORTER than the write timeout: when the blocked write finally
+		// runs into the write timeout the caller's context is long done. The stall is the link's, not the caller's:
+		// the link must be dropped all the same.
+		big := secs2.B(make([]byte, 2<<20))
+		_ = big.ToBytes()
+		bg.Add(1)
+		go func() {
+			defer bg.Done()
+			for n := 0; n < 200 && rg.Conn.State() == hsms.SelectedState; n++ {
+				ctx, cancel := context.WithTimeout(context.Background(), 50*time.Millisecond)
+				_, _ = rg.Conn.SendDataMessage(ctx, 1, 15, false, big)
+				cancel()
+				env.Event("short_deadline_sends_into_a_stalled_socket", 1)
+			}
+		}()
+		if !waitFor(30*time.Second, func() bool { return rg.Conn.State() != hsms.SelectedState }) {
+			fail("stall-not-dropped-write-timeout-short-ctx", "writes to a peer that never reads (write timeout 200 ms), each call with a 50 ms deadline, did not drop the link within 30 s: a write that ran into the write timeout after its caller's deadline left the dead link Selected")
 			return
 		}
 		env.Event("stall_cases", 1)
